@@ -33,7 +33,8 @@ META = {
     "explanation": "Rule instances over ResourceScenario.available/book, TaskScenario.limitsOk/incLimits/getAllLimits and "
                    "Limit.ok/inc/_idx_to_sb_idx/Limits.setLimit: the set of limit holders checked equals the set incremented, "
                    "ancestor chains are walked completely, the upper-limit comparison is strict, and no path answers "
-                   "'allowed' merely because the slot lies beyond the horizon known at parse time.",
+                   "'allowed' merely because the slot lies beyond the horizon known at parse time."
+                   " Also: the period index is typed as a difference of calendar dates (returns enumerated per period value by three-valued evaluation of the branch tests) and must depend on the interval start; Limit.copy passes every constructor field and aliases no counter list; the booking guard facts of C03.",
     "assumptions": [],
 }
 
